@@ -59,6 +59,8 @@ def run(ctx, rep):
     rep.rule("R17-DEEP", "Constant::deep_clone / Type::deep_clone rebuild every Rc-bearing child and swallow only Rc-free variants", floor=8)
     rep.rule("R17-FRESH", "the constant cache stores no Rc and a cached constant leaves it only through deep_clone", floor=3)
     rep.rule("R17-STATIC", "no static item holds an Rc", floor=1)
+    rep.rule("R17-TLS", "no static or thread-local holds an Rc (or a type built from one): programs are generated on one thread and run on others, and a process- or thread-wide Rc node is shared by every program that mentions it", floor=3)
+    rep.guarded("R17-TLS", lambda: r_tls(ctx.shape, rep))
     rep.guarded("R17-SEND", lambda: r_send(sh, rep))
     rep.guarded("R17-SURFACE", lambda: r_surface(fl, rep))
     rep.guarded("R17-TAKE", lambda: r_take(fl, sh, rep))
@@ -224,3 +226,35 @@ def r_fresh(fl, sh, rep):
 def r_static(fl, rep):
     bad = [s for s in fl.statics if "Rc<" in s["ty"] and not s["path"].startswith("aiken::")]
     rep.check(not bad, "R17-STATIC", "no-static-Rc", "", "static item(s) hold an Rc: %s" % [(s["path"], s["ty"][:50]) for s in bad], sample={"statics_scanned": len(fl.statics)})
+
+
+def r_tls(sh, rep):
+    """Every program handed to a worker must own its Rc graph. A value kept in a `static` / `thread_local!` and cloned into
+    the programs built on the main thread is one allocation reachable from all of them: workers then bump and drop its
+    non-atomic count concurrently."""
+    import re as _re
+    n = 0
+    for rel in sh.files():
+        if not _re.match(r"crates/(uplc|aiken-lang|aiken-project)/src/", rel):
+            continue
+        fj = sh.file(rel)
+        for it in walk(fj):
+            if it.get("k") == "Static":
+                n += 1
+                ty = it.get("ty") or ""
+                bad = _re.search(r"\bRc\s*<|\bTerm\s*<|\bType\b|\bConstant\b|\bProgram\s*<", ty if isinstance(ty, str) else "")
+                rep.check(not bad, "R17-TLS", "%s#static#%s" % (rel.split("/src/")[-1], it.get("name")), sh.loc(rel, it), "static `%s: %s` holds reference-counted AST data: every program built from it shares the allocation across worker threads" % (it.get("name"), ty), sample={"type": ty})
+        text = "\n".join(sh.text(rel))
+        for m in _re.finditer(r"thread_local!\s*[\{\(]", text):
+            depth, j = 1, m.end()
+            while j < len(text) and depth:
+                depth += text[j] in "{(" 
+                depth -= text[j] in "})"
+                j += 1
+            body = text[m.end():j]
+            n += 1
+            line = text.count("\n", 0, m.start()) + 1
+            bad = _re.search(r"\bRc\s*<|\bRc::new|\bTerm\s*<|\bType\b|\bConstant\b", body)
+            rep.check(not bad, "R17-TLS", "%s#thread_local#%d" % (rel.split("/src/")[-1], line), "%s:%d" % (rel, line), "a thread_local! holds reference-counted AST data (`%s`): all programs are generated on the main thread, so every program that clones it shares the node — and workers clone and drop it concurrently" % _re.sub(r"\s+", " ", body)[:80])
+    if n < 3:
+        raise AnchorMissing("statics of the workspace (found %d, 7 on the pinned tree)" % n)
